@@ -170,6 +170,12 @@ impl TransportFn<()> for DropRun {
                     use virtio_drivers::device::sound::{PcmFeatures, PcmFormat, PcmRate};
                     if step == 0 {
                         let _ = s.pcm_set_params(0, 32, 16, PcmFeatures::empty(), 1, PcmFormat::U8, PcmRate::Rate8000);
+                    } else if sound_tokens.is_empty() && flip(1, 3) {
+                        // blocking playback; the device may answer a transfer with an error status
+                        let frames: Box<[u8]> = vec![7u8; 16 * (1 + choose(6) as usize)].into_boxed_slice();
+                        let _ = s.pcm_xfer(0, &frames);
+                        // the caller's buffer is released right after the call returned
+                        drop(frames);
                     } else if flip(1, 2) || sound_tokens.is_empty() {
                         if let Ok(t) = s.pcm_xfer_nb(0, &[1u8; 16]) {
                             sound_tokens.push(t);
@@ -216,6 +222,10 @@ pub fn drop_anywhere() {
     }
     zoo::setup_device(kind, feats, kind.default_config());
     zoo::install_personality(kind);
+    if kind == Kind::Sound && flip(1, 2) {
+        // transfers may complete with an error status (an honest device that reports errors)
+        with(|w| w.personality::<crate::devices::sound::SoundDev>().faulty = true);
+    }
     oplog(|| format!("{} over {tk:?}: drop at a random point of a usage history", zoo::kind_name(kind)));
     if let Err(e) = zoo::with_transport(tk, DropRun { kind }) {
         violation("transport-construction-failed", "zoo", e);
